@@ -214,6 +214,71 @@ def body(chk):
             for k in range(0, len(dets), 10):
                 items.append((i, dets[k:k + 10], ov))
     chk.parallel(job, items)
+    # the step from locations to line numbers is part of analyze_for_*: it must be total too (every text of up to 4 characters with
+    # symbolic byte widths, every offset at which a token can start)
+    from . import c02
+    for T in ((2, 3) if chk.quick else (1, 2, 3, 4, 5)):
+        c02.check_line_number(chk, T, only_panics=True)
+    end_to_end(chk)
+
+
+NON_ASCII = {
+    'non-ASCII identifiers at the start of flagged constructs': '''pragma solidity ^0.8.16;
+contract Zähler {
+    uint256 étape;
+    uint256 private größe;
+    address[] 名前;
+    function ärger(uint256 übung) internal returns (uint256) {
+        étape = étape + 1;
+        übung++;
+        for (uint256 ï = 0; ï < 名前.length; ï++) { étape += 1; }
+        require(übung > 0, "größer als null: la valeur doit être strictement positive");
+        return übung * 2 / 4 * 8;
+    }
+    function öffnen() public { selfdestruct(payable(msg.sender)); }
+    constructor() { étape = 1; }
+}
+''',
+    'multi-byte text in comments and strings before every construct': '''// ÄÖÜ — ünïcödé ✓ 日本語 𝄞
+pragma solidity 0.8.3;
+/* çomment € */ contract C { /// 𝄞𝄞
+    string s = unicode"日本語 € 𝄞"; uint128 a; uint256 b; uint128 c;
+    /* € */ function f(uint256 x, string memory t) public { /* 𝄞 */ x = x + 1; /* é */ require(x > 1, unicode"€€€€€€€€€€€€€€€€€€€€€€€€€€€€€€€€€"); b = x; }
+}
+''',
+}
+
+
+def end_to_end(chk):
+    """the compiled analyze_for_* (parser + detector + line numbers) on every hostile file and on files with multi-byte characters
+    wherever the lexer accepts them: no job may end in a panic"""
+    texts = dict(NON_ASCII)
+    for label, build in hostile_files():
+        try:
+            b = sol.TreeBuilder()
+            su, base = build(b)
+            s = z3.Solver(); s.add(*base)
+            if s.check() != z3.sat:
+                continue
+            su = sol.concretize(su, {}, s.model())
+            texts[label] = sol.print_source(su)[0]
+        except Exception:
+            continue                      # members that cannot be printed are covered by the per-path validation above
+    from .. import reportlib as rl
+    jobs, meta = [], []
+    for label, text in texts.items():
+        path = chk.native.file(text)
+        for cat in ('opt', 'vul', 'qa'):
+            for _, name in rl.CATS[cat]['table']:
+                jobs.append(['analyze', cat, name, path]); meta.append((label, cat, name, text))
+    for (label, cat, name, text), res in zip(meta, chk.native.run(jobs)):
+        chk.states += 1
+        if res[0] in ('OK', 'PARSE_ERROR'):
+            chk.ok(); continue
+        chk.violation('%s:panic:end-to-end' % name, 'analyze_for_%s(%s) aborts on `%s`: %r' % (cat, name, label, res[1:]),
+                      {'job': 'analyze', 'category': cat, 'detector': name, 'source': text, 'observed': res})
+    chk.extra['end_to_end_files'] = sorted(texts)
+    chk.sample({'end to end': '%d files x 30 detectors through the compiled analyze_for_*' % len(texts)})
 
 
 if __name__ == '__main__':
